@@ -53,6 +53,9 @@ func c17Run(c *fw.Ctx, idx int) {
 	if rg.Intn(2) == 0 {
 		tenants = append(tenants, "t")
 	}
+	if idx%3 == 2 {
+		tenants = append(tenants, "org/unit") // a mount point with a level separator in its name
+	}
 	live := nNodes
 	if nodeFailure {
 		live = 2 // node 3 only hosts the sessions that die with it
@@ -226,6 +229,36 @@ func c17Run(c *fw.Ctx, idx int) {
 			return
 		}
 		c.Observe("overlapping_qos2_handshakes_same_identifier", 1)
+	}
+	// one tenant's shared-identifier client connects again (a take-over inside its own mount point): the
+	// same-named sessions of the other tenants are none of its business
+	{
+		t0 := tenants[idx%len(tenants)]
+		nc, err := nodes[sharedNode].MustConnect(kit.ConnectOpts{ClientID: "shared-id", KeepAlive: 600, Clean: true, User: t0})
+		if err != nil {
+			c.Violation("shared-client-id-refused", fmt.Sprintf("%s: tenant %s could not re-connect with its client identifier: %v", desc, t0, err), nil)
+			return
+		}
+		defer nc.Close()
+		if err := nc.Subscribe([]string{"x/a", "zz/end"}, []int{0, 0}); err != nil {
+			c.Inconclusive(desc + ": subscribe: " + err.Error())
+			return
+		}
+		old := shared[t0]
+		shared[t0] = nc
+		for _, su := range subs {
+			if su.cl == old {
+				su.cl = nc
+				su.late = true // judged from here on only
+			}
+		}
+		cl.StopPump()
+		cl.Quiesce()
+		cl.StartPump(3 * time.Millisecond)
+		old.Send(kit.EncPingReq())
+		old.WaitClosed(5 * time.Second)
+		old.Close()
+		c.Observe("takeovers_inside_one_tenant", 1)
 	}
 	// tenant A's session with the shared identifier is still served
 	for _, t := range tenants {
